@@ -283,6 +283,146 @@ def _trace_config(ctx, sf, c, n, length, label):
     ctx.sample({"config": name, "ops": [_fmt(o) for o in traces[0]]})
 
 
+
+# ------------------------------------------------------------------------------------------------
+# get_source_location while registrations are in flight (module DataManagerSource)
+# ------------------------------------------------------------------------------------------------
+
+SRC_P, SRC_P2 = "/data/f", "/work/f"
+
+
+def _source_locs():
+    from streamflow.core.deployment import ExecutionLocation
+    return {"X1": ExecutionLocation(name="n1", deployment="d1"), "X2": ExecutionLocation(name="n2", deployment="d1"),
+            "LOC": ExecutionLocation(name="__LOCAL__", deployment="__LOCAL__", local=True)}
+
+
+async def replay_source(ctx, sf, hist):
+    """One schedule of DataManagerSource on the real class: registrations with the `available` event unset (what
+    transfer_data does for its destination: a fresh DataLocation related to the source), completions, invalidations, ONE
+    get_source_location task, and explicit runs of the event loop.  The answer is judged in the state in which it is given."""
+    from streamflow.core.data import DataLocation, DataType
+    from streamflow.data.manager import DefaultDataManager
+    from vh.aio import settle
+    dm = DefaultDataManager(sf)
+    locs = _source_locs()
+    objs, state = {}, {"task": None, "snap": [], "waited": False, "raced": False, "judged": False}
+    detail = {"kind": "source", "hist": hist}
+
+    def judge():
+        state["judged"] = True
+        t = state["task"]
+        how = "after-wait" if state["waited"] else "immediately"
+        if t.exception() is not None:
+            ctx.violation("source-location:raises:%s" % type(t.exception()).__name__, detail, "get_source_location raises %r after %s" % (t.exception(), hist))
+            return False
+        r = t.result()
+        txt = " ; ".join("%s(%s)" % (o[0], ",".join(str(x) for x in o[1:])) for o in hist)
+        if r is None:
+            left = [c for c in state["snap"] if c.data_type == DataType.PRIMARY]
+            if left:
+                ctx.violation("source-location:none-although-valid-copy-remains", detail,
+                              "get_source_location returns None although %s on %s was a candidate and still is a valid primary copy (%s)"
+                              % (left[0].path, left[0].location, txt))
+                return False
+            return True
+        listed = dm.get_data_locations(SRC_P, data_type=DataType.PRIMARY)
+        sig = None
+        if r.data_type == DataType.INVALID:
+            sig = "source-location:returned-invalid-%s" % how
+        elif r.data_type != DataType.PRIMARY:
+            sig = "source-location:returned-non-primary-%s" % how
+        elif not r.available.is_set():
+            sig = "source-location:returned-before-available"
+        elif not any(r is o for o in listed):
+            sig = "source-location:returned-unlisted-copy"
+        if sig:
+            others = [o for o in listed if o.available.is_set()]
+            ctx.violation(sig, detail, "get_source_location chose %s on %s, now %s%s (%s)" % (
+                r.path, r.location, r.data_type.name,
+                "; a valid primary copy exists on %s" % others[0].location if others else "", txt))
+            return False
+        return True
+
+    ok = True
+    for op in hist:
+        try:
+            if op[0] == "regavail":
+                objs[op[1]] = dm.register_path(locs[op[1]], SRC_P)
+            elif op[0] == "regpending":
+                dst = DataLocation(location=locs[op[1]], path=SRC_P2, relpath="f", data_type=DataType.PRIMARY)   # event unset
+                dm.register_relation(next(iter(objs.values())), dst)
+                objs[op[1]] = dst
+                if not any(dst is o for o in dm.get_data_locations(SRC_P, locs[op[1]].deployment, locs[op[1]].name)):
+                    ctx.count("source_pending_not_listed")
+            elif op[0] == "complete":
+                o = objs[op[1]]
+                pending_call = state["task"] is not None and not state["task"].done()
+                if op[2]:
+                    o.data_type = DataType.SYMBOLIC_LINK
+                    state["raced"] = state["raced"] or pending_call
+                o.available.set()
+            elif op[0] == "invalidate":
+                state["raced"] = state["raced"] or (state["task"] is not None and not state["task"].done())
+                dm.invalidate_location(locs[op[1]], SRC_P)
+            elif op[0] == "start":
+                state["snap"] = list(dm.get_data_locations(SRC_P, data_type=DataType.PRIMARY))
+                state["task"] = asyncio.ensure_future(dm.get_source_location(SRC_P, op[1]))
+                await settle()
+                state["waited"] = not state["task"].done()
+            elif op[0] == "settle":
+                await settle()
+        except Exception as e:       # noqa: an exception of the code under test is an observation
+            ctx.violation("source-schedule:%s:raises:%s" % (op[0], type(e).__name__), detail, "%s raises %r" % (op, e))
+            ok = False
+            break
+        if state["task"] is not None and state["task"].done():
+            ok = judge()
+            break
+    t = state["task"]
+    if t is not None and not state["judged"] and ok:
+        for o in objs.values():          # every transfer completes: the call must be able to answer
+            o.available.set()
+        await settle()
+        if not t.done():
+            t.cancel()
+            ctx.violation("source-location:blocked-although-available", detail, "get_source_location is still suspended after every copy became available (%s)" % hist)
+            ok = False
+        else:
+            ok = judge()
+    if state["waited"]:
+        ctx.count("source_schedules_call_suspended")
+    if state["raced"]:
+        ctx.count("source_schedules_type_changed_while_suspended")
+    return ok
+
+
+async def _source_config(ctx, sf):
+    maxops = ctx.pick(6, 7)
+    text = open(os.path.join(ctx.spec_workdir("DataManager"), "MC_DataManagerSource.cfg")).read()
+    r = ctx.tlc("DataManager", "MC_DataManagerSource", "src.cfg", files={"src.cfg": text.replace("MaxOps = 6", "MaxOps = %d" % maxops)}, timeout=3000)
+    ctx.require(r.ok, "DataManagerSource: %s %s is a specification error\n%s" % (r.error, r.violated, r.stdout[-1500:]))
+    v = ctx.tlc("DataManager", "MC_DataManagerSource", "MC_DataManagerSource_variant.cfg", count=False, timeout=3000)
+    ctx.require(v.error == "invariant" and "ChosenIsValidPrimary" in v.violated,
+                "DataManagerSource does not tell the check-before-wait variant apart (vacuous property)")
+    hists, seen = [], set()
+    for x in r.printed_json():
+        if isinstance(x, dict) and "h" in x and any(o[0] == "start" for o in x["h"]):
+            k = json.dumps(x["h"])
+            if k not in seen:
+                seen.add(k)
+                hists.append(x["h"])
+    ctx.require(len(hists) > 1000, "DataManagerSource emitted only %d schedules" % len(hists))
+    for h in hists:
+        ctx.case(("source", json.dumps(h)), nontrivial=True)
+        await replay_source(ctx, sf, h)
+    ctx.impl_trace(len(hists))
+    ctx.count("source_schedules", len(hists))
+    ctx.require(ctx.counters.get("source_schedules_type_changed_while_suspended", 0) > 0,
+                "no schedule changed a candidate while the real call was suspended (vacuous)")
+    ctx.sample({"source_schedule": next(h for h in hists if any(o[0] == "invalidate" for o in h) and h[-1][0] == "settle")})
+
+
 async def _main(ctx):
     from vh.sut import context as C
     sf = C.build()
@@ -297,6 +437,7 @@ async def _main(ctx):
         for c in ctx.pick([], [conf("Chain", 2, False, 5), conf("Flat", 1, False, 7, relate_all=True)]):
             _deep_config(ctx, c)
         ctx.exhaustive = True
+        await _source_config(ctx, sf)
         big = conf("T3", 3, True, 99, types=("PRIMARY", "SYMLINK"))
         _trace_config(ctx, sf, big, ctx.pick(250, 4000), ctx.pick(7, 9), "wrap")
         if not ctx.quick:
@@ -310,7 +451,9 @@ def run(ctx):
     ctx.rule = ("TLC enumerates every sequence of register_path / register_relation / invalidate_location up to the stated depth on "
                 "each path universe; every transition is replayed from scratch on the real DefaultDataManager and the answers of "
                 "get_data_locations for every (path, deployment, location name, data type) and of get_source_location are judged "
-                "against the history-based expectations; plus harness-drawn longer sequences on 15 paths x 3 locations (wrapped "
+                "against the history-based expectations; DataManagerSource: every schedule of <= 6/7 environment operations "
+                "(registrations in flight, completions with re-typing, invalidations, loop runs) around one suspended "
+                "get_source_location call is replayed with real asyncio events; plus harness-drawn longer sequences on 15 paths x 3 locations (wrapped "
                 "location, mount point) answered by TLC; every case is a distinct operation sequence")
     asyncio.run(_main(ctx))
     ctx.assumptions += [
@@ -319,6 +462,9 @@ def run(ctx):
         "a relation to a path that is later invalidated on the same location leaves the related path undecided ('any'): "
         "the statement does not say whether links to vanished data stay listed",
         "invalidate_location of a path that was never seen (KeyError today) is not constrained",
+        "in-flight registrations are made as transfer_data makes them: a fresh DataLocation (event unset) related to an existing "
+        "copy through register_relation; completion re-types it to SYMBOLIC_LINK or keeps it and sets the event; an invalidated "
+        "destination is not re-typed; one get_source_location call per schedule",
         "get_source_location: only validity of the chosen copy is required (listed, PRIMARY, not on a location where the "
         "path must be unavailable; None iff no PRIMARY copy is listed), not the preference order",
     ]
@@ -328,6 +474,15 @@ def replay(ctx, data):
     d = data["detail"]
     if "hist" not in d:
         return run(ctx)
+    if d.get("kind") == "source":
+        async def gos():
+            from vh.sut import context as C
+            sf = C.build()
+            try:
+                await replay_source(ctx, sf, d["hist"])
+            finally:
+                await C.close(sf)
+        return asyncio.run(gos())
 
     async def go():
         from vh.sut import context as C
